@@ -554,7 +554,7 @@ def P16(m, R):
                 R.viol(g, n, '%s stores .%s = %r on a setting without consulting %s: %s returns its memo when it is set, so from then on %s is %r for that setting whatever '
                              'its text (%s)' % (g.qual, memo, const_val(v_), pname, pname, pname, const_val(v_),
                                                 'for every setting once %s has run' % g.name if g.cls == 'AnsiSetting'
-                                                else 'e.g. "38;5;300", which the parser lets through and parsable rejects' if pname == 'parsable' else 'the predicate is bypassed'),
+                                                else 'the predicate is bypassed: what it would answer for that text is never asked'),
                        construct='%s memo owner' % pname)
             else:
                 R.undecided(g, n, '%s stores the memo %s of %s' % (g.qual, memo, pname), construct='%s memo owner' % pname)
